@@ -46,7 +46,7 @@ typedef SPxBasisBase<double>::Desc::Status DS;
 template <class HH>
 static inline void init(HH& b, Solver& lp, int rep, int nr, int nc, double* lhs, double* rhs, double* lower, double* upper, double* obj,
                         int* rowkey, int* colkey, int* rowstat, int rsize, int rmax, int* colstat, int csize, int cmax,
-                        int* bid, int bsize, int bmax, const SVectorBase<double>** mat, int bstatus, int setup, int fact)
+                        int* bid, int bsize, int bmax, SVectorBase<double>** mat, int bstatus, int setup, int fact)
 {
    lp.left.val = lhs; lp.left.dimen = nr; lp.right.val = rhs; lp.right.dimen = nr;
    lp.low.val = lower; lp.low.dimen = nc; lp.up.val = upper; lp.up.dimen = nc; lp.objc.val = obj; lp.objc.dimen = nc;
@@ -60,7 +60,7 @@ static inline void init(HH& b, Solver& lp, int rep, int nr, int nc, double* lhs,
    b.thedesc.costat = rep > 0 ? &b.thedesc.rowstat : &b.thedesc.colstat;
    b.thedesc.p_rowDim = 0; b.thedesc.p_colDim = 0;
    b.theBaseId.data = (SPxId*)bid; b.theBaseId.thesize = bsize; b.theBaseId.themax = bmax;
-   *(void**)&b.matrix.data = (void*)mat;   /* (the front end drops the const of the element type) */ b.matrix.thesize = bsize; b.matrix.themax = bmax;
+   b.matrix.data = mat;   /* (the front end drops the const of the element type `const SVectorBase<R>*`) */ b.matrix.thesize = bsize; b.matrix.themax = bmax;
    b.matrixIsSetup = setup != 0; b.factorized = fact != 0;
    b.thestatus = (SPxBasisBase<double>::SPxStatus)bstatus;
    b.loadMatrixVecs_calls = 0;
@@ -90,7 +90,7 @@ extern "C" void w_removedRow(int i, int rep, int nr, int nc, int* rowstat, int* 
    VIN("i", i); VIN("rep", rep); VIN("nr", nr); VIN("nc", nc); VIN("bsize", bsize); VIN("bstatus", bstatus); VIN("setup", setup); VIN("fact", fact);
    VIN_ARR8("rowstat", rowstat, nr + 1); VIN_ARR8("colstat", colstat, nc);
    basis_change_force_ctors();
-   const SVectorBase<double>* mat[MATCAP];
+   SVectorBase<double>* mat[MATCAP];
    Solver lp; H b;
    init(b, lp, rep, nr, nc, 0, 0, 0, 0, 0, 0, 0, rowstat, nr + 1, nr + 1, colstat, nc, nc, bid, bsize, bsize, mat, bstatus, setup, fact);
    lp.goneRow = gone;
@@ -115,7 +115,7 @@ extern "C" void w_removedCol(int i, int rep, int nr, int nc, int* rowstat, int* 
    VIN("i", i); VIN("rep", rep); VIN("nr", nr); VIN("nc", nc); VIN("bsize", bsize); VIN("bstatus", bstatus); VIN("setup", setup); VIN("fact", fact);
    VIN_ARR8("rowstat", rowstat, nr); VIN_ARR8("colstat", colstat, nc + 1);
    basis_change_force_ctors();
-   const SVectorBase<double>* mat[MATCAP];
+   SVectorBase<double>* mat[MATCAP];
    Solver lp; H b;
    init(b, lp, rep, nr, nc, 0, 0, 0, 0, 0, 0, 0, rowstat, nr, nr, colstat, nc + 1, nc + 1, bid, bsize, bsize, mat, bstatus, setup, fact);
    lp.goneCol = gone;
@@ -150,7 +150,7 @@ extern "C" void w_removedMany(int* perm, int rep, int nr, int nc, int* rowstat, 
    VIN_ARR8("perm", perm, csize);
 #endif
    basis_change_force_ctors();
-   const SVectorBase<double>* mat[MATCAP];
+   SVectorBase<double>* mat[MATCAP];
    Solver lp; H b;
    init(b, lp, rep, nr, nc, 0, 0, 0, 0, 0, 0, 0, rowstat, rsize, rsize, colstat, csize, csize, 0, bsize, bsize, mat, bstatus, setup, fact);
    b.perm.p = perm;
@@ -185,7 +185,7 @@ extern "C" void w_added(int n, int rep, int nr, int nc, double* lhs, double* rhs
    VIN("n", n); VIN("rep", rep); VIN("nr", nr); VIN("nc", nc); VIN("rsize", rsize); VIN("csize", csize); VIN("bsize", bsize); VIN("bstatus", bstatus); VIN("setup", setup); VIN("fact", fact);
    VIN_ARR8("rowstat", rowstat, rsize); VIN_ARR8("colstat", colstat, csize);
    basis_change_force_ctors();
-   const SVectorBase<double>* mat[MATCAP];
+   SVectorBase<double>* mat[MATCAP];
    Solver lp; H b;
    init(b, lp, rep, nr, nc, lhs, rhs, lower, upper, obj, rowkey, colkey, rowstat, rsize, nr, colstat, csize, nc, bid, bsize, bmax, mat, bstatus, setup, fact);
    b.n = n;
@@ -219,7 +219,7 @@ extern "C" void w_changed(int rep, int nr, int nc, double* lhs, double* rhs, dou
    VIN("rep", rep); VIN("nr", nr); VIN("nc", nc); VIN("bsize", bsize); VIN("bstatus", bstatus); VIN("setup", setup); VIN("fact", fact);
    VIN_ARR8("rowstat", rowstat, nr); VIN_ARR8("colstat", colstat, nc);
    basis_change_force_ctors();
-   const SVectorBase<double>* mat[MATCAP];
+   SVectorBase<double>* mat[MATCAP];
    Solver lp; H b;
    init(b, lp, rep, nr, nc, lhs, rhs, lower, upper, obj, rowkey, colkey, rowstat, nr, nr, colstat, nc, nc, bid, bsize, bsize, mat, bstatus, setup, fact);
    b.body();
